@@ -427,7 +427,6 @@ func ZZC05Script() {
 			n.Close(true)
 			c.stores[0].Closed = false
 			c.nodes[0] = zzOpenNode(c.stores[0])
-			rt.Assert(c.nodes[0].balloon.Version() == accepted, "version-survives-restart")
 			if rt.Symbolic() {
 				// Raft re-delivers its log after a restart (natively the real Raft does so while
 				// the node is opened): every entry is already applied and must change nothing
@@ -437,8 +436,8 @@ func ZZC05Script() {
 						return
 					}
 				}
-				rt.Assert(c.nodes[0].balloon.Version() == accepted, "log-replay-after-restart-changes-nothing")
 			}
+			rt.Assert(c.nodes[0].balloon.Version() == accepted, "version-survives-restart")
 			rt.Reach("restarted")
 		case 3: // query
 			if accepted == 0 {
@@ -522,4 +521,33 @@ func ZZC05Twin() {
 	c := zzNewCluster(1)
 	s, err := zzAddBulk(c.nodes[0], zzEvents(0x10, 1))
 	rt.Assert(err != nil || s[0].Version != 0, "twin")
+}
+
+// ZZC17Issued (C17, first hop): every snapshot the node issues is handed to the sender's
+// channel exactly once, in order, with the content that was acknowledged to the client.
+func ZZC17Issued() {
+	c := zzNewCluster(1)
+	n := c.nodes[0]
+	var all []*balloon.Snapshot
+	reqs := 1 + rt.Choose("requests", rt.Param("REQUESTS", 2))
+	for k := 0; k < reqs; k++ {
+		m := 1 + rt.Choose(fmt.Sprintf("bulk%d", k), rt.Param("BULK", 3))
+		snaps, err := zzAddBulk(n, zzEvents(byte(0x10+k), m))
+		if err != nil || len(snaps) != m {
+			rt.Assert(false, "add-acknowledged")
+			return
+		}
+		all = append(all, snaps...)
+	}
+	rt.Assert(len(n.snapshotsCh) == len(all), "one-snapshot-queued-per-issued-snapshot")
+	for i := range all {
+		if len(n.snapshotsCh) == 0 {
+			break
+		}
+		p := <-n.snapshotsCh
+		rt.Assert(p != nil && p.Version == all[i].Version, "queued-in-order-of-issue")
+		if p != nil {
+			rt.Assert(bytes.Equal(p.EventDigest, all[i].EventDigest) && bytes.Equal(p.HistoryDigest, all[i].HistoryDigest) && bytes.Equal(p.HyperDigest, all[i].HyperDigest), "queued-snapshot-is-the-issued-one")
+		}
+	}
 }
